@@ -202,7 +202,12 @@ func c10RunServed(c C10Case) C10Result {
 		resp, err := http.ReadResponse(bufio.NewReader(conn), nil)
 		if err != nil {
 			conn.Close()
-			violate(n, "served:no-response", fmt.Sprintf("step %d (%s): no response from the session handler under a real server: %v", n, kind, err))
+			if ne, ok := err.(net.Error); ok && ne.Timeout() {
+				// 20 s without an answer says something about this machine, not about cookies
+				return problem(fmt.Sprintf("step %d (%s): no response within 20 s: %v", n, kind, err))
+			}
+			// net/http recovers a panicking handler and drops the connection
+			violate(n, "served:connection-dropped-without-response", fmt.Sprintf("step %d (%s): the server dropped the connection without a response (a handler that panics does that): %v", n, kind, err))
 			break
 		}
 		if resp.StatusCode != 101 {
